@@ -8,7 +8,6 @@ import re
 import sys
 from collections import defaultdict
 from contextlib import contextmanager
-from functools import partial
 from functools import reduce
 from io import StringIO
 from operator import mul
@@ -24,6 +23,7 @@ from typing import TextIO
 from markupsafe import Markup
 
 from .exceptions import ContextDepthError
+from .exceptions import LiquidTypeError
 from .exceptions import LocalNamespaceLimitError
 from .exceptions import LoopIterationLimitError
 from .exceptions import UnknownFilterError
@@ -303,13 +303,12 @@ class RenderContext:
 
         if kwargs:
             if hasattr(filter_func, "filter_async"):
-                _filter_func = partial(filter_func, **kwargs)
-                _filter_func.filter_async = partial(  # type: ignore
-                    filter_func.filter_async,
-                    **kwargs,
+                _filter_func = _bind(filter_func, kwargs, name, token)
+                _filter_func.filter_async = _bind(  # type: ignore
+                    filter_func.filter_async, kwargs, name, token
                 )
                 return _filter_func
-            return partial(filter_func, **kwargs)
+            return _bind(filter_func, kwargs, name, token)
 
         return filter_func
 
@@ -501,6 +500,31 @@ class RenderContext:
         val: int = self.counters.get(name, 0) - 1
         self.counters[name] = val
         return val
+
+
+def _bind(
+    func: Callable[..., object],
+    injected: dict[str, Any],
+    name: str,
+    token: TokenT,
+) -> Callable[..., object]:
+    """Bind the render context and/or environment to a filter function.
+
+    Like `functools.partial(func, **injected)`, except that a keyword argument
+    written in the template can not replace an injected one. With `partial`,
+    `{{ x | join: ',', environment: y }}` handed `y` to the filter in place
+    of the environment.
+    """
+
+    def bound(*args: object, **kwargs: object) -> object:
+        for key in injected:
+            if key in kwargs:
+                raise LiquidTypeError(
+                    f"{name}: {key!r} is a reserved argument name", token=token
+                )
+        return func(*args, **kwargs, **injected)
+
+    return bound
 
 
 class BuiltIn(Mapping[str, object]):
